@@ -22,6 +22,11 @@ func (e ErrInvalidLedgerConfiguration) Error() string {
 	return fmt.Sprintf("invalid ledger configuration: %s", e.err)
 }
 
+// Unwrap exposes the cause (e.g. an invalid ledger name) to errors.Is / errors.As.
+func (e ErrInvalidLedgerConfiguration) Unwrap() error {
+	return e.err
+}
+
 func (e ErrInvalidLedgerConfiguration) Is(err error) bool {
 	_, ok := err.(ErrInvalidLedgerConfiguration)
 	return ok
